@@ -58,6 +58,17 @@ def run(ctx):
     asmcheck.run_suite(ctx, "directive-table-with-comment", [framed(s, "table-comment", comment="note") for s in recs if s["mn"] in ("FCC", "FCB", "RMB")])
     # a comment that itself contains every delimiter character must not leak into the string
     asmcheck.run_suite(ctx, "fcc-with-delimiters-in-comment", [framed(s, "table-comment-delims", comment='the "greeting" of a/b, it\'s |x|') for s in recs if s["mn"] == "FCC"])
+    # text glued to the closing delimiter (no blank in between), itself containing the delimiter again: the string still ends at the FIRST closing delimiter
+    glued = []
+    for st in [x for x in recs if x["mn"] == "FCC"]:
+        d = asmio.roperand(st)[:1]
+        for tail in (d, "X" + d, "," + d + "TWO" + d, "B" + d + d, "+1", d + d):
+            if " " in d or not st["chars"] or any(chr(c) in " ;" for c in st["chars"]):
+                continue
+            prog = asmcheck.asmrun.frame(st)
+            lines = [asmio.render(prog[0]), asmio.render(dict(st, optext=asmio.roperand(st) + tail)), asmio.render(prog[2])]
+            glued.append(Case(prog, lines, focus=2, tag="fcc-glued-tail"))
+    asmcheck.run_suite(ctx, "fcc-glued-tail", glued if thorough else glued[rnd.randrange(3)::3])
     asmcheck.run_suite(ctx, "directive-random", random_cases(rnd, 200000 if thorough else 8000))
     ctx.cov["rule"] = ("TLC-enumerated FCB/FDB lists (length 1,2,3,64 x literal spellings, negatives, boundary and out-of-range values), FCC strings from the string "
                        "class lattice (empty, blanks, blank runs, leading/trailing blank, ';', characters outside the operand alphabet, the other quotes, length 255) x "
